@@ -324,6 +324,20 @@ def decide(prop, tier, seed):
                 undecided.append("%s/%s: refuted although no extracted text of the unit differs from the baseline (%s)" % (key, fid, clause))
                 continue
             lost_h = ((f or {}).get("hints_lost") or []) + ((f or {}).get("hints_inexact") or [])
+            # text-building functions (R20): the same text can be produced by many orders of pushes (the newline at the end of
+            # a line or at the start of the next), so the loop invariants written for the unchanged text say more about
+            # intermediate states than the property does.  A failure of an invariant or of a hint there is treated like a
+            # lost annotation (a failing input decides); a failed postcondition / precondition with all invariants
+            # discharged is the contract itself (benign refactoring BENIGN5_1 was a false alarm before this rule)
+            # (an invariant that does not speak about the text -- which edges the loop ranges over, which members were seen --
+            # is not of that kind and stays under rule (i))
+            text_specs = re.compile(r"\b(plain_nodes|plain_edges|attr_nodes|attr_edges|attr_node_edges|gattr_lines|attr_text|opt_gattr|opt_attr|dot_plain|dot_attr|dot_head)\b")
+            if (f or {}).get("text_builder") and o["diags"] and all(
+                    ("invariant" in d["message"] or "assertion failed" in d["message"]) and text_specs.search(d.get("rendered") or "")
+                    for d in o["diags"]):
+                lost_h = lost_h + ["text-building function: only loop invariants / hints written for the unchanged text fail"]
+                if f is not None and not f.get("hints_lost"):
+                    f["hints_lost"] = ["text-building function: only loop invariants / hints written for the unchanged text fail"]
             if (lost_h or fid in (u.get("bare") or [])) and not confirmed_by_input(prop, "%s/%s" % (key, fid)):
                 # the proof annotations of this function were written for a different text: without them the solver cannot
                 # tell a broken property from a missing invariant, so this is no verdict (never an alarm)
